@@ -84,7 +84,7 @@ def _model_dict(m, vars_):
 
 
 def decide(name, assumptions, bad, vars_, logic='QF_BV', all_sat=False, max_models=2000, timeout_s=120,
-           second=(), workdir=None, second_timeout_s=60, block_vars=None):
+           second=(), workdir=None, second_timeout_s=60, block_vars=None, blocker=None):
     """Is `assumptions AND bad` satisfiable?  all_sat: enumerate every assignment of block_vars (default vars_)."""
     v = Verdict(name)
     s = z3.SolverFor(logic)
@@ -111,7 +111,7 @@ def decide(name, assumptions, bad, vars_, logic='QF_BV', all_sat=False, max_mode
             if all_sat:
                 v.note = 'model cap %d reached' % max_models
             break
-        s.add(z3.Or(*[x != m.eval(x, model_completion=True) for x in bvars]))
+        s.add(blocker(m) if blocker is not None else z3.Or(*[x != m.eval(x, model_completion=True) for x in bvars]))
     v.solver_s = time.time() - t0
     if second and v.result in ('unsat', 'sat'):
         first = 'unsat' if not v.models else 'sat'
